@@ -127,6 +127,21 @@ func c08Batch(r *rig.SignerRig, kind string, n int, real bool, viaHandler bool) 
 			names[i] = "Wallet 1/" + accts[i].Name()
 		}
 	}
+	// Some accounts of an attestation batch have voted for a far later target before, so that the rules refuse their
+	// entry: the entries around a refused one must still be signed by their own account over their own data.
+	farAhead := func(a *rig.Acct) {
+		e := Ent{S: 900000, T: 1000000, Root: 1}
+		_, _ = r.Signer.SignBeaconAttestation(r.Ctx, creds, "Wallet 1/"+a.Name(), nil, AttData(e))
+	}
+	prior := make([]bool, n)
+	if kind == "atts" && n >= 3 {
+		for i := range accts {
+			if i%5 == 1 {
+				prior[i] = true
+				farAhead(accts[i])
+			}
+		}
+	}
 	var ress []core.Result
 	var sigs [][]byte
 	singleAtt := make([]*rules.SignBeaconAttestationData, n)
@@ -200,6 +215,9 @@ func c08Batch(r *rig.SignerRig, kind string, n int, real bool, viaHandler bool) 
 	if !real {
 		for i := range items {
 			alone := r.AddSymAccount("Wallet 1", "", "pass", true)
+			if prior[i] {
+				farAhead(alone)
+			}
 			var signedAlone bool
 			switch kind {
 			case "atts":
@@ -407,7 +425,7 @@ func C08(tier string) int {
 	run.Coverage = map[string]any{
 		"evaluations":         cells,
 		"distinct_nontrivial": len(classes),
-		"rule":                "singles: attestation/proposal/generic requests over boundary values of slot, index, epochs, proposer index x 3 root fills x 2 domains x addressing with real BLS keys, verified with the BLS library against a signing root computed by an independent sha256 merkleisation; batches: attestation batches and multisign of every listed size x every listed GOMAXPROCS with per-entry data that is distinct as a whole while every single field (slot, committee index, roots, epochs; data and domain for multisign) is shared between some entries, mixed addressing, symbolic keys (signature must be byte-equal to the addressed account's signature over the independent signing root; exactly n results and n signatures; signature i is not the one expected at i+1), every fourth size through the gRPC handler; reduced (n, procs) grid repeated with real BLS keys; distinct = request classes and (kind, n, procs) cells",
+		"rule":                "singles: attestation/proposal/generic requests over boundary values of slot, index, epochs, proposer index x 3 root fills x 2 domains x addressing with real BLS keys, verified with the BLS library against a signing root computed by an independent sha256 merkleisation; batches: attestation batches and multisign of every listed size x every listed GOMAXPROCS with per-entry data that is distinct as a whole while every single field (slot, committee index, roots, epochs; data and domain for multisign) is shared between some entries, mixed addressing, every fifth account of an attestation batch refused by the rules (it voted for a far later target before), symbolic keys (signature must be byte-equal to the addressed account's signature over the independent signing root; exactly n results and n signatures; signature i is not the one expected at i+1), every fourth size through the gRPC handler; reduced (n, procs) grid repeated with real BLS keys; distinct = request classes and (kind, n, procs) cells",
 		"samples":             samples.List(),
 		"exhaustive":          true,
 		"signatures_verified": sigsChecked - int(c08Unsigned.Load()),
